@@ -187,7 +187,7 @@ func (s *Sorts) sortOf1(t types.Type, key string) string {
 		return s.declStruct(fmt.Sprintf("S_anon%d_%s", s.anon, sanitize(key))[:min(60, len(fmt.Sprintf("S_anon%d_%s", s.anon, sanitize(key))))], u)
 	case *types.Pointer:
 		es := s.SortOf(u.Elem())
-		name := "Ptr_" + es
+		name := "Ptr_" + sanitize(es)
 		s.declare(name, fmt.Sprintf("(declare-datatypes ((%s 0)) (((mk_%s (%s.nil Bool) (%s.val %s)))))", name, name, name, name, es))
 		return name
 	case *types.Slice:
@@ -383,7 +383,7 @@ func (s *Sorts) Zero(t types.Type) string {
 	case *types.Pointer:
 		return fmt.Sprintf("(mk_%s true %s)", sort, s.Zero(u.Elem()))
 	case *types.Slice:
-		return fmt.Sprintf("(mk_%s ((as const (Array Int %s)) %s) 0 0 0)", sort, s.SortOf(u.Elem()), s.Zero(u.Elem()))
+		return fmt.Sprintf("(mk_%s ((as const (Array Int %s)) %s) (- 1) 0 0)", sort, s.SortOf(u.Elem()), s.Zero(u.Elem())) // offset -1 marks the nil slice
 	case *types.Array:
 		if _, ok := baLen(u); ok {
 			return sort + ".zero"
@@ -438,7 +438,7 @@ func (s *Sorts) TypeInv(term string, t types.Type, depth int) []string {
 		}
 	case *types.Slice:
 		so := s.SortOf(t)
-		out = append(out, fmt.Sprintf("(>= (%s.off %s) 0)", so, term), fmt.Sprintf("(>= (%s.len %s) 0)", so, term), fmt.Sprintf("(>= (%s.cap %s) (%s.len %s))", so, term, so, term),
+		out = append(out, fmt.Sprintf("(>= (%s.off %s) (- 1))", so, term), fmt.Sprintf("(=> (< (%s.off %s) 0) (= (%s.cap %s) 0))", so, term, so, term), fmt.Sprintf("(>= (%s.len %s) 0)", so, term), fmt.Sprintf("(>= (%s.cap %s) (%s.len %s))", so, term, so, term),
 			fmt.Sprintf("(< (+ (%s.off %s) (%s.cap %s)) 4611686018427387904)", so, term, so, term))
 	case *types.Map:
 		so := s.SortOf(t)
